@@ -316,8 +316,11 @@ fn extract_source_map<R: Read>(
                         let final_path = if source_path.is_absolute() {
                             source_path
                         } else {
-                            let folder = file_reader.parent(Path::new(file_path)).unwrap();
-                            folder.join(source_path)
+                            // a file name without a directory ("" or "/") has no parent
+                            match file_reader.parent(Path::new(file_path)) {
+                                Some(folder) => folder.join(source_path),
+                                None => source_path,
+                            }
                         };
 
                         decode(file_reader.read(&final_path)?)
